@@ -175,6 +175,28 @@ def exhaustive_cases(depth: int, svc_type: str, durs: Tuple[int, int], kind: str
     return out
 
 
+def timing_cases() -> List[dict]:
+    """one trace per shipped class: its timed transition (restart for a service, request-install for an application) and a fix
+    interrupted by pause / stop / close, each followed by enough ticks to complete — so that a class whose `apply_timestep` override
+    skips the base countdown in some state shows up whichever class it is (not only the classes the random traces happen to restart)"""
+    out = []
+    for t in svc_types():
+        name = "arp" if t == "arp" else t
+        ops = [{"op": "isvc", "type": t, "listen": [], "health": "GOOD", "fix": 2, "cfg": True},
+               {"op": "sreq", "name": name, "r": "restart"}] + [{"op": "tick"}] * 7 + \
+              [{"op": "sreq", "name": name, "r": "fix"}, {"op": "sreq", "name": name, "r": "pause"}] + [{"op": "tick"}] * 3 + \
+              [{"op": "sreq", "name": name, "r": "resume"}, {"op": "sreq", "name": name, "r": "fix"}, {"op": "sreq", "name": name, "r": "stop"}] + \
+              [{"op": "tick"}] * 3 + [{"op": "sreq", "name": name, "r": "start"}, {"op": "sreq", "name": name, "r": "restart"},
+                                      {"op": "sreq", "name": name, "r": "disable"}] + [{"op": "tick"}] * 7
+        out.append({"node": {"power": "ON", "up": 0, "down": 0, "kind": "computer"}, "ops": ops, "focus": "timing"})
+    for t in app_types():
+        ops = [{"op": "runinst", "name": t}, {"op": "rinst", "name": t}, {"op": "tick"}, {"op": "areq", "name": t, "r": "close"},
+               {"op": "tick"}, {"op": "tick"}, {"op": "areq", "name": t, "r": "fix"}, {"op": "areq", "name": t, "r": "close"}] + \
+              [{"op": "tick"}] * 3
+        out.append({"node": {"power": "ON", "up": 0, "down": 0, "kind": "computer"}, "ops": ops, "focus": "timing"})
+    return out
+
+
 # --------------------------------------------------------------------------------------------------- implementation side
 class Impl:
     """One real Computer plus the bookkeeping needed to print the same canonical lines as the Lean driver."""
@@ -277,10 +299,15 @@ class Impl:
         for k, v in self.sm.port_protocol_mapping.items():
             if sw.get(v.name) is not v:
                 bad.append(("reg:port-table-owner-not-installed", f"{k} -> {v.name} not the installed instance"))
-        ds = self.node.describe_state()
-        listed = sorted(list(ds["services"]) + list(ds["applications"]))
-        if listed != sorted(sw):
-            bad.append(("reg:describe_state-vs-software", f"describe_state={listed} software={sorted(sw)}"))
+        try:
+            ds = self.node.describe_state()
+        except Exception as e:  # noqa  -- describe_state is read on every environment step: it must not raise
+            bad.append(("describe_state-raises", f"{type(e).__name__}: {e}"))
+            ds = None
+        if ds is not None:
+            listed = sorted(list(ds["services"]) + list(ds["applications"]))
+            if listed != sorted(sw):
+                bad.append(("reg:describe_state-vs-software", f"describe_state={listed} software={sorted(sw)}"))
         if sorted(self.sm._software_class_to_name_map.items(), key=lambda kv: kv[1]) != \
                 sorted(((type(o), o.name) for o in sw.values()), key=lambda kv: kv[1]):
             bad.append(("reg:class-map-vs-software", f"class map={sorted(v for v in self.sm._software_class_to_name_map.values())} "
